@@ -10,3 +10,11 @@ pub mod run;
 pub mod oracle;
 pub mod plans;
 pub mod harness;
+
+/// identity macro: `simrt::idm![callback]` / `simrt::idm!(callback)` — a macro call as an operand
+#[macro_export]
+macro_rules! idm {
+    ($e:expr) => {
+        $e
+    };
+}
